@@ -297,3 +297,117 @@ pub fn corrupt(rng: &mut Rng, b: &mut Vec<u8>, other: &[u8]) -> &'static str {
         _ => { let i = rng.below(b.len() as u64) as usize; let l = rng.range(1, 9) as usize; for _ in 0..l { b.insert(i, 0xff); } if rng.bool() { for k in 0..l { b[i + k] = rng.byte(); } } "insert" }
     }
 }
+
+// ---------------------------------------------------------------- targeted corruptions
+fn head_len(ib: u8) -> usize { match ib & 31 { 0..=23 => 1, 24 => 2, 25 => 3, 26 => 5, 27 => 9, _ => 1 } }
+
+/// (start, head length, major) of every definite array / map / byte string / text string head, pre-order
+pub fn container_heads(root: &Item, b: &[u8], out: &mut Vec<(usize, usize, u8)>) {
+    let ib = b[root.start];
+    match &root.kind {
+        Kind::Array(Some(_), xs) => { out.push((root.start, head_len(ib), 4)); for x in xs { container_heads(x, b, out); } }
+        Kind::Array(None, xs) => for x in xs { container_heads(x, b, out); },
+        Kind::Map(Some(_), xs) => { out.push((root.start, head_len(ib), 5)); for (k, v) in xs { container_heads(k, b, out); container_heads(v, b, out); } }
+        Kind::Map(None, xs) => for (k, v) in xs { container_heads(k, b, out); container_heads(v, b, out); },
+        Kind::Bytes(..) => out.push((root.start, head_len(ib), 2)),
+        Kind::Text(..) => out.push((root.start, head_len(ib), 3)),
+        Kind::Tag(_, _, x) => container_heads(x, b, out),
+        _ => {}
+    }
+}
+
+/// the same bytes with the head at `start` declaring the length `l` (contents untouched)
+pub fn with_declared_len(b: &[u8], start: usize, hl: usize, major: u8, l: u64) -> Vec<u8> {
+    let mut v = b[..start].to_vec();
+    if l <= u32::MAX as u64 { v.push((major << 5) | 26); v.extend_from_slice(&(l as u32).to_be_bytes()); }
+    else { v.push((major << 5) | 27); v.extend_from_slice(&l.to_be_bytes()); }
+    v.extend_from_slice(&b[start + hl..]);
+    v
+}
+
+pub const HUGE_LENS: [u64; 5] = [0xffff_ffff, 1 << 32, 1 << 62, u64::MAX - 1, u64::MAX];
+
+/// every map of the tree with one of its entries repeated (one mutant per map, up to `cap`)
+pub fn duplicate_key_mutants(rng: &mut Rng, root: &Item, cap: usize) -> Vec<Vec<u8>> {
+    let mut out = vec![];
+    let total = root.count();
+    for n in 0..total {
+        if out.len() >= cap { break; }
+        let mut r = root.clone();
+        let mut k = n;
+        let Some(node) = r.nth_mut(&mut k) else { continue };
+        if let Kind::Map(_, xs) = &mut node.kind {
+            if xs.is_empty() { continue; }
+            let i = rng.below(xs.len() as u64) as usize;
+            let e = xs[i].clone();
+            if rng.bool() { xs.push(e); } else { xs.insert(i, e); }
+            out.push(r.to_vec());
+        }
+    }
+    out
+}
+
+/// texts that straddle typical truncation limits with a multi-byte character
+pub fn nasty_texts() -> Vec<Vec<u8>> {
+    let mut v: Vec<Vec<u8>> = vec![];
+    for n in [23usize, 24, 63, 64, 127, 255, 256, 1023, 1024, 4095, 65535] {
+        for tail in ["é", "€", "𝄞", "ééé"] {
+            let mut s = vec![b'a'; n]; s.extend_from_slice(tail.as_bytes()); v.push(s.clone());
+            if n > 0 { let mut s2 = vec![b'a'; n - 1]; s2.extend_from_slice(tail.as_bytes()); s2.extend_from_slice(b"zz"); v.push(s2); }
+        }
+    }
+    v.push(vec![b'x'; 70_000]);
+    v.push(vec![0xc3]); v.push(vec![b'a', 0xe2, 0x82]); v.push(vec![0xff, 0xfe]);
+    v
+}
+
+/// every text string of the tree replaced by `txt` (one mutant per text node, up to `cap`)
+pub fn text_mutants(root: &Item, txt: &[u8], cap: usize) -> Vec<Vec<u8>> {
+    let mut out = vec![];
+    let total = root.count();
+    for n in 0..total {
+        if out.len() >= cap { break; }
+        let mut r = root.clone();
+        let mut k = n;
+        let Some(node) = r.nth_mut(&mut k) else { continue };
+        if let Kind::Text(..) = node.kind { node.kind = Kind::Text(min_w(txt.len() as u64), txt.to_vec()); out.push(r.to_vec()); }
+    }
+    out
+}
+
+/// every array / map node toggled between definite and indefinite form, one node per mutant
+pub fn single_toggles(root: &Item, cap: usize) -> Vec<Vec<u8>> {
+    let mut out = vec![];
+    let total = root.count();
+    for n in 0..total {
+        if out.len() >= cap { break; }
+        let mut r = root.clone();
+        let mut k = n;
+        let Some(node) = r.nth_mut(&mut k) else { continue };
+        match &mut node.kind {
+            Kind::Array(w, xs) => { *w = match *w { Some(_) => None, None => Some(min_w(xs.len() as u64)) }; out.push(r.to_vec()); }
+            Kind::Map(w, xs) => { *w = match *w { Some(_) => None, None => Some(min_w(xs.len() as u64)) }; out.push(r.to_vec()); }
+            _ => {}
+        }
+    }
+    out
+}
+
+/// every integer / length / tag head written with 8 argument bytes, one node per mutant
+pub fn single_widens(root: &Item, cap: usize) -> Vec<Vec<u8>> {
+    let mut out = vec![];
+    let total = root.count();
+    for n in 0..total {
+        if out.len() >= cap { break; }
+        let mut r = root.clone();
+        let mut k = n;
+        let Some(node) = r.nth_mut(&mut k) else { continue };
+        let done = match &mut node.kind {
+            Kind::UInt(w, _) | Kind::NInt(w, _) | Kind::Tag(w, _, _) | Kind::Bytes(w, _) | Kind::Text(w, _) if *w != 4 => { *w = 4; true }
+            Kind::Array(Some(w), _) | Kind::Map(Some(w), _) if *w != 4 => { *w = 4; true }
+            _ => false,
+        };
+        if done { out.push(r.to_vec()); }
+    }
+    out
+}
